@@ -435,6 +435,13 @@ def run(ctx):
     # what a reopen yields.
     items_in_order(ctx, "R-C04.8")
 
+    # ---- cross-cutting disciplines (rules/discipline.py)
+    from .. import discipline as D
+    # a recovery step that fails must fail the open
+    D.error_discipline(ctx, "R-C04.10", scope=lambda f: f.startswith(("db::Database::recover", "recovery::", "journal::recovery", "journal::reader", "<journal::reader", "<journal::batch_reader", "journal::batch_reader")))
+    # replay visits every journal, batch, item and keyspace
+    D.loops_visit_all(ctx, "R-C04.11", only=("db::Database::recover", "recovery::recover_sealed_memtables", "recovery::recover_keyspaces", "journal::recovery::recover_journals"))
+
     # ---- borrowed obligations (mechanisms owned by other properties that this property's verdict also rests on)
     # what recovery leaves at the journal's tail decides what the NEXT reopen reads
     ctx.borrow("C03", ["R-C03.3"], "R-C04.9")
